@@ -1030,6 +1030,8 @@ def equal(I, a, b):
             if isinstance(x, SStr) and isinstance(y, str):
                 if x.nonempty and y == '':
                     return False
+                if x.__dict__.get('prefix') and not y.startswith(x.prefix[0]):
+                    return False
         raise Unsupported('equality of opaque strings')
     if isinstance(a, str) != isinstance(b, str):
         return False
